@@ -650,13 +650,20 @@ func runC08(c *hx.Ctx) {
 	// rng.New(k) and rng.New(k+1) are the same stream shifted by one draw; hash the
 	// seed once so that neighbouring VERIF_SEEDs give unrelated scenarios
 	R := rng.New(rng.New(c.Seed).U64() ^ 0x5851F42D4C957F2D)
-	w := newWorld(seedKeys(R.Fork()))
-	defer w.close()
-	for i := 0; i < 24; i++ {
-		var h types.Hash256
-		R.Bytes(h[:])
-		w.storeSector(h)
+	var w *world
+	freshWorld := func() {
+		if w != nil {
+			w.close()
+		}
+		w = newWorld(seedKeys(R.Fork()))
+		for i := 0; i < 24; i++ {
+			var h types.Hash256
+			R.Bytes(h[:])
+			w.storeSector(h)
+		}
 	}
+	freshWorld()
+	defer func() { w.close() }()
 
 	report := func(res *scenResult) {
 		seen := map[string]bool{}
@@ -703,6 +710,11 @@ func runC08(c *hx.Ctx) {
 	nsteps := c.Scale(13, 16)
 	var cases []string
 	for i := 0; i < nscen; i++ {
+		// the reference contractor and the wallets do work proportional to the
+		// number of contracts and blocks: start over on a fresh chain now and then
+		if i > 0 && i%120 == 0 {
+			freshWorld()
+		}
 		p := makePlan(R.U64(), nsteps)
 		// a scripted scenario first: the renewal id is asked for before the renewal exists
 		if i == 0 {
